@@ -12,6 +12,7 @@ Definition agree_prop (a : acfg) : Prop :=
     /\ res_vers rc = res_vers rs /\ res_suite rc = res_suite rs
     /\ res_ms rc = res_ms rs /\ res_ekm rc = res_ekm rs /\ res_keys rc = res_keys rs
     /\ res_peer rc = expected_server_certs a /\ res_peer rs = expected_client_certs a
+    /\ reconnect_ok a rc = true
   | (Errored, Errored) => policy_allows a = false
   | _ => False
   end.
@@ -24,7 +25,7 @@ Proof. intros a b. unfold listN_eqb. destruct (list_eq_dec N.eq_dec a b); [auto|
 Lemma agree_check_sound : forall a, agree_check a = true -> agree_prop a.
 Proof.
   intros a. unfold agree_check, agree_prop. destruct (honest_run a) as [[rc| |] [rs| |]]; try discriminate.
-  - intros H. do 7 (apply andb_prop in H; destruct H as [H ?]).
+  - intros H. do 8 (apply andb_prop in H; destruct H as [H ?]).
     repeat split; auto using term_eqb_eq, listN_eqb_eq; apply N.eqb_eq; assumption.
   - intros H. apply negb_true_iff. exact H.
 Qed.
@@ -34,7 +35,7 @@ Proof. intros []; cbn; auto. Qed.
 
 Lemma sweep_forall : forall f, sweep f = true -> forall a, in_product a -> f a = true.
 Proof.
-  intros f H [m k cs ss p au cc cb tk] (Hm & Hk & Hcs & Hss & Hau & Hcc).
+  intros f H [m k cs ss p au cc cb tk pl] (Hm & Hk & Hcs & Hss & Hau & Hcc).
   cbn [a_mode a_ckind a_csuites a_ssuites a_auth a_ccert] in Hm, Hk, Hcs, Hss, Hau, Hcc.
   unfold sweep in H.
   rewrite forallb_forall in H. specialize (H m Hm).
@@ -45,7 +46,8 @@ Proof.
   rewrite forallb_forall in H. specialize (H au Hau).
   rewrite forallb_forall in H. specialize (H cc Hcc).
   rewrite forallb_forall in H. specialize (H cb (in_bools cb)).
-  rewrite forallb_forall in H. exact (H tk (in_bools tk)).
+  rewrite forallb_forall in H. specialize (H tk (in_bools tk)).
+  rewrite forallb_forall in H. exact (H pl (in_bools pl)).
 Qed.
 
 (* ---------- key block ------------------------------------------------------------------------------ *)
